@@ -8,6 +8,7 @@ import (
 	"fmt"
 	"os"
 	"sort"
+	"strings"
 )
 
 type propRunner func(c *Ctx)
@@ -58,6 +59,8 @@ func main() {
 		c := NewCtx(prop, *tier, *seed, *driver)
 		r(c)
 		writeJSON(*out, c.Finish())
+	case "eval":
+		os.Exit(evalMain(strings.Join(os.Args[2:], " ")))
 	case "worker":
 		os.Exit(workerMain(os.Args[2:]))
 	default:
